@@ -369,6 +369,7 @@ func c03Backends(st *c03Stats, dir string, n int, capacity uint32, pairs []*Size
 	}()
 	// ---- /dev/shm file
 	path := fmt.Sprintf("%s/c03_%d_%d_buffer", dir, os.Getpid(), n)
+	os.Remove(path) // (a file left behind by a killed earlier run whose process id was reused must not be taken for ours)
 	bm, err := getGlobalBufferManager(path, capacity, true, pairs)
 	if err == nil {
 		bufferManagers.Lock()
@@ -422,6 +423,7 @@ func c03Backends(st *c03Stats, dir string, n int, capacity uint32, pairs []*Size
 	}
 	// ---- queues, both back-ends
 	qpath := fmt.Sprintf("%s/c03_%d_%d_queue", dir, os.Getpid(), n)
+	os.Remove(qpath)
 	qa, err := createQueueManager(qpath, qcap)
 	if err != nil {
 		return fmt.Sprintf("createQueueManager(%d): %v", qcap, err)
